@@ -24,12 +24,13 @@ from core import coqrun
 
 ID = 'C08'
 PROPERTY_FILE = 'C08/Property.v'
-PROPERTY_FILES = ['C08/Property.v', 'C08/Examples.v', 'C08/PropertyCore.v', 'C08/SnapshotProperty.v', 'C08/FloatProperty.v']
+PROPERTY_FILES = ['C08/Property.v', 'C08/Examples.v', 'C08/PropertyCore.v', 'C08/SnapshotProperty.v', 'C08/VersionProperty.v',
+                  'C08/FloatProperty.v']
 # hand-written obligations that do not depend on Gen_Layout.v: still checked when the translator fails closed
-PROPERTY_FILES_NO_GEN = ['C08/PropertyCore.v', 'C08/SnapshotProperty.v', 'C08/FloatProperty.v']
+PROPERTY_FILES_NO_GEN = ['C08/PropertyCore.v', 'C08/SnapshotProperty.v', 'C08/VersionProperty.v', 'C08/FloatProperty.v']
 LEVEL = 'proof'
 # the integer/byte-level theorems are closed; only the real-number resolution theorems (Flocq) use the reals' axioms
-ALLOWED_AXIOMS = {'C08/Property.v': (), 'C08/Examples.v': (), 'C08/PropertyCore.v': (), 'C08/SnapshotProperty.v': (),
+ALLOWED_AXIOMS = {'C08/Property.v': (), 'C08/Examples.v': (), 'C08/PropertyCore.v': (), 'C08/SnapshotProperty.v': (), 'C08/VersionProperty.v': (),
                   'C08/FloatProperty.v': coqrun.REAL_AXIOMS}
 TRUSTED_BASE = [
     'coq/C08/FwLayout.v: hand-written transcription of the firmware packed structs, sign conventions and type-byte '
@@ -246,16 +247,32 @@ def rig_connect():
     cf, link, _ = _rig()
     link.transmit(0)
     cf.platform.fetch_platform_informations(lambda: None)
+    _state['dev_ver'] = -1                      # nothing reported yet
     link.discard()                              # the negotiation packet is not a command
 
 
-def rig_answer(ver):
+def rig_rx(chan, data):
+    """a packet from the device on the platform port (13), delivered the way _IncomingPacketHandler.run does: to every
+    registered callback whose port/channel registration matches (exceptions in a callback are swallowed there).  The
+    harness keeps the version the DEVICE reported in its last genuine reply (channel 1 = VERSION_COMMAND, first byte 0 =
+    VERSION_GET_PROTOCOL, with a version byte)."""
     from cflib.crtp.crtpstack import CRTPPacket, CRTPPort
     cf, link, _ = _rig()
     pk = CRTPPacket()
-    pk.set_header(CRTPPort.PLATFORM, 1)          # VERSION_COMMAND channel
-    pk.data = (0, ver)                           # VERSION_GET_PROTOCOL, version
-    cf.platform._platform_callback(pk)
+    pk.set_header(CRTPPort.PLATFORM, chan)
+    pk.data = bytes(data)
+    for cb in [cb for cb in cf.incoming.cb
+               if cb.port == (pk.port & cb.port_mask) and cb.channel == (pk.channel & cb.channel_mask)]:
+        try:
+            cb.callback(pk)
+        except Exception:  # noqa  (as the dispatcher thread does)
+            pass
+    if chan == 1 and len(data) >= 2 and data[0] == 0:
+        _state['dev_ver'] = data[1]
+
+
+def rig_answer(ver):
+    rig_rx(1, [0, ver])                          # VERSION_COMMAND channel: VERSION_GET_PROTOCOL, version
 
 
 def rig_disconnect():
@@ -265,7 +282,57 @@ def rig_disconnect():
 
 
 def version_in_force():
+    """the protocol version the DEVICE reported in its last genuine reply (-1: none yet): what every command has to be
+    encoded for"""
+    return _state.get('dev_ver', -1)
+
+
+def library_version():
     return _rig()[0].platform.get_protocol_version()
+
+
+def gen_noise(rng, ver):
+    """other traffic on the platform port: command echoes on channel 0 for every command code, app-channel data,
+    version-channel packets with other command codes, short packets, duplicates of the genuine reply"""
+    r = rng.random()
+    b = rng.choice([0, 1, 2, 7, 8, 9, 10, 255, rng.randrange(256)])
+    if r < 0.35:
+        return {'op': 'rx', 'chan': 0, 'data': [rng.choice([0, 0, 1, 2]), b][:rng.choice([1, 2, 2, 2])]}
+    if r < 0.55:
+        return {'op': 'rx', 'chan': 2, 'data': [rng.choice([0, 0, 1, b])] + [rng.randrange(256) for _ in range(rng.randint(0, 5))]}
+    if r < 0.7:
+        return {'op': 'rx', 'chan': 1, 'data': [rng.choice([1, 1, 2, 3, 255])] + [rng.randrange(256) for _ in range(rng.randint(0, 6))]}
+    if r < 0.8:
+        return {'op': 'rx', 'chan': 3, 'data': [0, b]}
+    if r < 0.9 and ver != -1:
+        return {'op': 'rx', 'chan': 1, 'data': [0, ver]}          # duplicate of the genuine reply
+    return {'op': 'rx', 'chan': rng.randrange(4), 'data': [[], [0], [1]][rng.randrange(3)]}
+
+
+def platform_traffic_sessions():
+    """hand-written: handshake, then a platform command and its firmware echo (or other port-13 traffic), then the
+    version-dependent commands"""
+    def call(cmd, args):
+        return {'op': 'call', 'case': {'cmd': cmd, 'ver': None, 'xm': False, 'args': list(args)}, 'lag': 0}
+    a4 = [1.0, 2.0, 3.0, 4.0]
+    dep = lambda: [call('CHover', a4), call('CZDistance', a4), call('CVelocityWorld', a4),                  # noqa
+                   call('CHlGoTo', [1.0, 2.0, 3.0, 0.5, 2.0, True, True, 3]),
+                   call('CHlSpiral', [1.0, 0.5, 1.5, 0.25, 3.0, True, False, 0])]
+    out = []
+    for ver in (10, 9, 8):
+        traffic = [
+            [call('CPlatContWave', [True]), {'op': 'rx', 'chan': 0, 'data': [0, 1]}],
+            [call('CPlatContWave', [False]), {'op': 'rx', 'chan': 0, 'data': [0, 0]}],
+            [call('CPlatArming', [True]), {'op': 'rx', 'chan': 0, 'data': [1, 1]}],
+            [call('CPlatCrashRecovery', []), {'op': 'rx', 'chan': 0, 'data': [2]}],
+            [{'op': 'rx', 'chan': 2, 'data': [0, 3, 1, 4]}],
+            [{'op': 'rx', 'chan': 1, 'data': [1, 4, 5, 6, 7]}],
+            [{'op': 'rx', 'chan': 3, 'data': [0, 5]}],
+            [{'op': 'rx', 'chan': 1, 'data': [0, ver]}, {'op': 'rx', 'chan': 1, 'data': [0]}, {'op': 'rx', 'chan': 0, 'data': []}],
+        ]
+        for t in traffic:
+            out.append([{'op': 'connect'}, {'op': 'answer', 'ver': ver}] + t + dep() + [{'op': 'disconnect'}])
+    return out
 
 
 def build_sessions(cases, rng, keep_ver=False):
@@ -289,6 +356,8 @@ def build_sessions(cases, rng, keep_ver=False):
             if k == pre and v != -1:
                 steps.append({'op': 'answer', 'ver': v})
             c['ver'] = -1 if k < pre else v
+            if rng.random() < 0.3:
+                steps.append(gen_noise(rng, -1 if k < pre else v))
             steps.append({'op': 'call', 'case': c, 'lag': rng.randint(0, lagmax)})
         if pre >= len(chunk) and v != -1:
             steps.append({'op': 'answer', 'ver': v})
@@ -362,6 +431,8 @@ def run_sessions(sessions):
                 rig_connect()
             elif st['op'] == 'answer':
                 rig_answer(st['ver'])
+            elif st['op'] == 'rx':
+                rig_rx(st['chan'], st['data'])
             elif st['op'] == 'disconnect':
                 rig_disconnect()                     # the radio drains its queue first
             else:
@@ -410,7 +481,7 @@ def shrink_history(hist):
         return hist
     i = 0
     while i < len(hist):
-        if hist[i]['op'] == 'call' and not hist[i].get('judge'):
+        if hist[i]['op'] in ('call', 'rx') and not hist[i].get('judge'):
             cand = hist[:i] + hist[i + 1:]
             if fails(cand):
                 hist = cand
@@ -430,6 +501,8 @@ def replay_history(hist):
             rig_connect()
         elif st['op'] == 'answer':
             rig_answer(st['ver'])
+        elif st['op'] == 'rx':
+            rig_rx(st['chan'], st['data'])
         elif st['op'] == 'disconnect':
             rig_disconnect()
         else:
@@ -1157,7 +1230,7 @@ def tie(ctx):
     for i, c in enumerate(cases):
         c['kw'], c['omit'] = (i % 7 == 3), (i % 5 == 1)
     # session histories: the same objects throughout, the version changes only through connect / answer / disconnect
-    sessions = version_race_sessions() + back_to_back_sessions() + build_sessions(cases[:n_focus], ctx.rng, keep_ver=True) \
+    sessions = version_race_sessions() + back_to_back_sessions() + platform_traffic_sessions() + build_sessions(cases[:n_focus], ctx.rng, keep_ver=True) \
         + build_sessions(cases[n_focus:], ctx.rng)
     run_sessions(sessions)
     cases, owner = [], {}
@@ -1187,6 +1260,29 @@ def tie(ctx):
         if len(dis) < 12:
             dis.append({'what': 'model and implementation differ on %s' % cases[bi]['cmd'], 'case': case_json(cases[bi]),
                         'history': history_json(owner[id(cases[bi])], cases[bi]), 'model': mv, 'impl': exp[bi]})
+    # ---- negotiated version: random histories of port-13 packets through the real callbacks vs Version.vrun
+    vh_terms, vh_exp = [], []
+    for _ in range(ctx.scale(150, 1500)):
+        rig_disconnect()
+        rig_connect()
+        hist = []
+        trace = []
+        for _k in range(ctx.rng.randint(1, 8)):
+            st = gen_noise(ctx.rng, 10) if ctx.rng.random() < 0.7 else {'chan': 1, 'data': [0, ctx.rng.randrange(256)]}
+            if ctx.rng.random() < 0.15:
+                st = {'chan': ctx.rng.randrange(4), 'data': [0, ctx.rng.randrange(256)]}
+            rig_rx(st['chan'], st['data'])
+            hist.append((st['chan'], st['data']))
+            trace.append(library_version())
+        vh_terms.append('[' + '; '.join('vrun [%s] (-1)' % '; '.join('(%d, %s)' % (c, coqrun.zlist(d)) for c, d in hist[:k + 1])
+                                        for k in range(len(hist))) + ']')
+        vh_exp.append(trace)
+    rig_disconnect()
+    for bi, mv in coqrun.compare_blocks(HEADER + 'From CF Require Import C08.Version.\n', vh_terms, vh_exp, tag='c08v', shard=50):
+        nd += 1
+        if len(dis) < 12:
+            dis.append({'what': 'negotiated protocol version: Version.vrun and PlatformService differ', 'model': mv,
+                        'impl': vh_exp[bi], 'packets': vh_terms[bi][:600]})
     # ---- header byte: ports 0..63 x channels 0..15 through set_header and through the property setters
     from cflib.crtp.crtpstack import CRTPPacket
     hdr_terms, hdr_exp = [], []
@@ -1248,7 +1344,7 @@ def oracle(ctx, deep=False):
             flat.append((i < n_focus, d))
     foc = [d for f, d in flat if f]
     rnd = [d for f, d in flat if not f]
-    sessions = version_race_sessions() + back_to_back_sessions() + build_sessions(foc, rng, keep_ver=True) + build_sessions(rnd, rng)
+    sessions = version_race_sessions() + back_to_back_sessions() + platform_traffic_sessions() + build_sessions(foc, rng, keep_ver=True) + build_sessions(rnd, rng)
     n += run_sessions(sessions)
     for steps in sessions:
         for st in steps:
@@ -1262,6 +1358,39 @@ def oracle(ctx, deep=False):
                 f['_steps'] = steps
                 f['_case'] = c
                 fails.append(f)
+    # ---- platform-port traffic sweep: after a handshake with version 10, every channel x command code 0..2 x payload
+    #      byte; the version the library uses must stay the one of the last genuine reply
+    sweep_bad = []
+    rig_disconnect()
+    rig_connect()
+    rig_answer(10)
+    for chan in range(4):
+        for code in range(3):
+            for b in list(range(256)) + [None]:
+                data = [code] if b is None else [code, b]
+                rig_rx(chan, data)
+                n += 1
+                if library_version() != version_in_force():
+                    if len(sweep_bad) < 3:
+                        sweep_bad.append((chan, data, library_version(), version_in_force()))
+                    rig_answer(10)
+                elif version_in_force() != 10:
+                    rig_answer(10)
+    rig_disconnect()
+    for chan, data, got, want in sweep_bad:
+        hist = [{'op': 'connect'}, {'op': 'answer', 'ver': 10}, {'op': 'rx', 'chan': chan, 'data': data},
+                {'op': 'call', 'cmd': 'CHover', 'xmode': False, 'args': _enc_args([1.0, 2.0, 3.0, 4.0]), 'lag': 0, 'judge': True}]
+        f = replay_history(hist)
+        if not f:
+            f = {'class': 'library_version_differs_from_reported', 'expected': want, 'observed': got}
+        f['class'] = 'version_changed_by_other_platform_traffic:' + f['class']
+        f['detail'] = ('after the device reported protocol version %d, the port-13 packet channel %d data %r made the library '
+                       'use version %d' % (want, chan, data, got))
+        f['case'] = {'cmd': 'CHover', 'method': 'commander.send_hover_setpoint', 'ver': want, 'xmode': False,
+                     'args': _enc_args([1.0, 2.0, 3.0, 4.0]), 'args_readable': '[1.0, 2.0, 3.0, 4.0]', 'history': hist,
+                     'version_in_force': want}
+        fails.append(f)
+        break
     # ---- header clause: all 16 x 4
     from cflib.crtp.crtpstack import CRTPPacket
     for port in range(16):
